@@ -8,7 +8,8 @@ and "unreg": bool):
   {"kind": "text", "text": "..."}                                  literal input (known-finding witnesses, atheris)
 Oracle: Parser(ctx, text).parse_module() + verify()  (or parse_attribute / parse_type) must end in
   IR | ParseError | DiagnosticException; any other exception = internal error (signature: type + innermost
-  xdsl frame); CPU time <= 1 s + 2 ms/char, otherwise the hang-confirmation protocol below decides.
+  xdsl frame + caller in another file + message head); CPU time <= 1 s + 2 ms/char, otherwise the
+  hang-confirmation protocol (confirm_hang) decides.
 """
 from __future__ import annotations
 
@@ -28,27 +29,34 @@ ID = "C07"
 SHARDS = {"quick": 16, "thorough": 16}
 RULE = ("(a) corpus chunks (*.mlir under tests/ and docs/, split on '// -----', <=3000 chars) and tables of "
         "attribute/type texts mutated at token level (insert/glue/delete/replace/duplicate/truncate/cut/append/"
-        "swap/duplicate-span/strip-blanks) with a fixed table of grammar tokens, keywords, numeric edge lexemes, "
-        "non-ASCII letters and digits, quotes and unterminated literals, prefixed identifiers, bracket runs; "
-        "(b) token sequences drawn from a small recursive grammar of generic ops, attributes, types and "
-        "locations plus random-token noise; (c) quick/thorough: an atheris coverage-guided campaign whose "
-        "findings are re-judged by the same oracle. Entry: Parser(ctx, text).parse_module()+verify(), "
-        "parse_attribute(), parse_type() in a fresh Context with all dialects registered lazily. Oracle: "
-        "outcome is IR, ParseError(+subclasses) or DiagnosticException(+subclasses); RecursionError/MemoryError/"
-        "NotImplementedError are counted as exclusions; any other exception is an internal error (signature "
-        "= exception type + innermost xdsl frame). Time: CPU budget 1 s + 2 ms/char per input (ITIMER_VIRTUAL, "
-        "immune to sibling load); an over-budget input is re-measured 3 times and is a hang only if doubling "
-        "the region at the interrupt position grows the time >=3x (or halving it makes it complete >=8x "
-        "faster when the full input never completes). Non-trivial: text differs from every corpus chunk and "
-        "the parser consumed at least one token. By construction: string literals the lexer regex cannot match "
-        "are capped at 14 plain characters (known exponential regex, witness replayed separately) and bracket "
-        "nesting is bounded at 40.")
+        "swap/duplicate-span/strip-blanks, 1-4 edits) with a fixed table of grammar tokens, keywords, numeric edge "
+        "lexemes, non-ASCII letters and digits, quotes and unterminated literals, prefixed identifiers, bracket "
+        "runs; (b) sentences of a small context-free grammar of generic ops, regions, block labels, attributes, "
+        "types, affine maps and locations (expanded from a list of integers) plus 0-3 random token edits, and "
+        "uniformly random token sequences; (c) an atheris coverage-guided campaign (quick: 30 s next to shard 0, "
+        "thorough: 8 min next to every shard) whose crash/time-out candidates are re-judged by the same plain "
+        "oracle. Entry: Parser(ctx, text).parse_module()+verify(), parse_attribute(), parse_type() in a fresh "
+        "Context with all dialects registered lazily (allow_unregistered from the recipe). Oracle: outcome is IR, "
+        "ParseError(+subclasses) or DiagnosticException(+subclasses); RecursionError/MemoryError/"
+        "NotImplementedError are counted as exclusions; any other exception is an internal error, signature = "
+        "type + innermost xdsl frame (file:qualified function) + calling frame in another file + leading words "
+        "of the message. Time: CPU budget 1 s + 2 ms/char per input (ITIMER_VIRTUAL); an over-budget input is "
+        "re-measured 3 times and is a hang only if all re-runs are over budget and the growth is super-linear in "
+        "the region the parser was working on (doubling it costs >=3x, or cutting it makes the input complete "
+        ">=8x faster); signature = parser/lexer function that was executing. Non-trivial: text differs from every "
+        "corpus chunk and the parser consumed at least one token. By construction (counted under "
+        "excluded_by_construction): string literals the lexer regex cannot match are capped at 14 plain "
+        "characters (known exponential regex, its witness is replayed un-capped), integer type widths are capped "
+        "at 7 digits (value ranges of wider types allocate the width in bits per operation: memory-bound), "
+        "bracket nesting is bounded at 40, the address space of the process at 1 GiB (-> MemoryError).")
 ASSUMPTIONS = [
     "CPU time of the shard process (ITIMER_VIRTUAL / time.process_time) is the measure of 'time'; "
     "the parser does no blocking I/O",
-    "PyRDLError and the other non-Diagnostic xdsl exception classes are internal errors when they escape "
-    "the parser (xdsl-opt only reports ParseError and DiagnosticException)",
-    "a fresh Context per input with allow_unregistered taken from the recipe (default True)",
+    "PyRDLError, plain Exception and the other non-Diagnostic xdsl exception classes are internal errors when "
+    "they escape the parser (xdsl-opt only reports ParseError and DiagnosticException)",
+    "a fresh Context per input; every dialect module is imported once before the measurements start",
+    "a hang needs 4 over-budget runs of the same input; under heavy machine load single over-budget runs are "
+    "reported as inconclusive, never as violations",
 ]
 
 PLAIN_CAP = 14       # plain characters allowed in a string literal the lexer regex cannot match
